@@ -19,7 +19,7 @@ inductive Err
   | eos | badInt | negInt | bad64 | unknownByte | stack | badRef | badEnvRef | badDefRef | defBusy
   | typ | envLen | slots | envIdx | symmap | verify | fnEnvs | fnIncomplete | fnEnvCount
   | fbSetup | frIncomplete | frSize | frPc | frCall | frAlign | frEntrance | fbFrames | fbCycle | fbStatus | fbNoFrames
-  | fbOperand | fbLast | unsafePtr | absUnknown | absNoHook | absSafe | chanCount | pegSize | pegBad
+  | fbOperand | fbLast | unsafePtr | absUnknown | absNoHook | absSafe | absThreaded | chanCount | pegSize | pegBad
   deriving DecidableEq, Repr, Inhabited
 
 /-- what the unmarshaller later asks about a value: its type, the name of a symbol (abstract type lookup), which
@@ -167,6 +167,7 @@ structure Cfg where
   abstracts : List (List Nat × Nat)
   guardDepth : Nat := recursionGuard     -- JANET_RECURSION_GUARD
   jopCall : Nat                          -- JOP_CALL
+  threads : Bool                         -- JANET_THREADS (else `janet_unmarshal_abstract_threaded` panics)
 
 section
 variable (C : Cfg) (b : Array Nat)
@@ -416,7 +417,8 @@ def pegBody (P : Fns) (d : Nat) : M Unit :=
 
 /-- `janet_chanat_unmarshal` -/
 def chanBody (P : Fns) (d : Nat) : M Unit :=
-  ubyte C b >>= fun _ => pushLookup .abs >>= fun _ => ubyte C b >>= fun _ =>
+  ubyte C b >>= fun thr =>
+  (if thr ≠ 0 ∧ C.threads = false then fail .absThreaded else pushLookup .abs) >>= fun _ => ubyte C b >>= fun _ =>
   readint C b >>= fun _ => readint C b >>= fun count =>
   expect (decide (0 ≤ count)) .chanCount >>= fun _ =>
   loopN count.toNat (P.one (d + 2) >>= fun _ => pure ())
